@@ -237,6 +237,7 @@ def run(ck, F, E):
 
     # ---- (5b) a control statement that fails with its specified error has not touched the continuation before failing
     fail_readonly(ck, F, E)
+    stacks_dropped_only_with_breakpoint(ck, F, E)
 
     # ---- breaking at an INPUT prompt and CONTinuing re-executes the INPUT statement: it must do nothing until a reply exists
     from props.C08 import await_rule
@@ -247,6 +248,9 @@ def run(ck, F, E):
 
 
 CONTROL_FAILURES = ("NextWithoutFor", "ReturnWithoutGosub", "CannotContinue")
+# Program methods behind statements that assign no variable and may fail when typed at a breakpoint
+FAILURE_ATOMIC = ("define_function",)
+MUT_BORROWS = ("get_mut", "entry", "last_mut", "first_mut", "iter_mut", "values_mut", "get_many_mut", "or_insert", "or_insert_with", "or_default")
 CONTINUATION = ("stack", "loop_stack", "breakpoint", "data_iterator", "functions")
 MUTATORS = ("pop", "clear", "truncate", "drain", "remove", "swap_remove", "retain", "push", "insert", "take", "split_off", "extend")
 
@@ -263,11 +267,22 @@ def fail_readonly(ck, F, E):
     from lib import path_records, on_ok_arm
     n_sites = 0
     seen_variants = set()
+    n_atomic = set()
     for body in F.bodies.values():
         if body.crate != "abasic_core" or body.self_adt != PROGRAM:
             continue
         errs = [(b, v, sp) for (b, i, pl, rv, sp) in aggregates(body, "interpreter_error::InterpreterError")
                 for v in [rv.get("variant")] if v in CONTROL_FAILURES]
+        if body.path.split("::")[-1] in FAILURE_ATOMIC:
+            # every way out with an error counts, whoever builds it (`x.try_into()?` gives ILLEGAL DIRECT for a DEF typed
+            # in direct mode: a DEF that fails must not have touched the function it names)
+            for c in body.calls():
+                if c.callee.endswith("from_residual") and c.dest["local"] == 0 and not c.dest["proj"]:
+                    errs.append((c.bb, "propagated", c.span))
+            for (b, i, pl, rv, sp) in aggregates(body, "core::result::Result", "Err"):
+                if pl["local"] == 0 and not pl["proj"]:
+                    errs.append((b, "Err", sp))
+            n_atomic.add(body.path.split("::")[-1])
         if not errs:
             continue
         fi = E.info[body.path]
@@ -314,11 +329,104 @@ def fail_readonly(ck, F, E):
                     fs = [p for p in pl2["proj"] if p["k"] == "field"]
                     if fs and fs[0].get("name") in CONTINUATION and fs[0].get("adt", "").endswith("program::Program"):
                         bad.append("assignment to Program.%s" % fs[0]["name"])
+                    # a store through a reference handed out by `self.<field>.get_mut(..)` / `.entry(..)` / `.last_mut()`
+                    if any(p["k"] == "deref" for p in pl2["proj"]):
+                        for x in expr_calls(body.binding_expr(pl2["local"], 12)):
+                            if len(x) > 3 and x[3] is not None and x[1].split("::")[-1] in MUT_BORROWS:
+                                rf = C16.receiver_field(body, x[3])
+                                if rf and rf[0] == PROGRAM and rf[1] in CONTINUATION:
+                                    bad.append("store through %s() of Program.%s" % (x[1].split("::")[-1], rf[1]))
             ck.require(not bad, key, "failing control statements are read-only",
                        "nothing of the continuation is modified on a path that reaches Err(%s)" % variant,
                        "%s can report %s after it has already modified the continuation (%s): a failing statement typed at a "
                        "breakpoint changes what CONT resumes" % (body.path, variant, "; ".join(sorted(set(bad)))), sp)
-    ck.floor("C07.control-statement failures constructed in Program", len(seen_variants), len(CONTROL_FAILURES))
+    ck.floor("C07.control-statement failures constructed in Program", len(seen_variants - {"propagated", "Err"}), len(CONTROL_FAILURES))
+    ck.floor("C07.failure-atomic Program methods found", len(n_atomic), len(FAILURE_ATOMIC))
+
+
+def stacks_dropped_only_with_breakpoint(ck, F, E):
+    """The GOSUB and FOR stacks are what CONT resumes with.  Whoever empties one of them wholesale must be giving up the
+    pending breakpoint too (RUN, a program edit), or do it only when no breakpoint is pending (going back to direct mode).  A
+    helper that empties them is judged by its callers, up to three levels.  (`END` typed at a breakpoint is a statement that
+    assigns nothing; the continuation must survive it.)"""
+    from props import C16
+    from props.C11 import writes_only_without_breakpoint
+    from lib import field_stores
+    STACKS = ("stack", "loop_stack")
+
+    def direct_clears(body):
+        out = []
+        for c in body.calls():
+            if c.is_local:
+                continue
+            nm = c.callee.split("::")[-1]
+            rf = C16.receiver_field(body, c)
+            if not (rf and rf[0] == PROGRAM and rf[1] in STACKS):
+                continue
+            full = nm == "drain" and len(c.args) > 1 and strip_expr(body.expr(c.args[1]))[0] == "agg" and \
+                str(strip_expr(body.expr(c.args[1]))[1]).endswith("RangeFull")
+            if nm == "clear" or full or (nm == "truncate" and strip_expr(body.expr(c.args[1]))[0] == "const" and
+                                                   strip_expr(body.expr(c.args[1]))[1].get("int") == 0):
+                out.append((c.bb, rf[1], c.span))
+            if nm in ("take", "replace", "swap") and "mem" in c.callee:
+                out.append((c.bb, rf[1], c.span))
+        for (b2, i2, pl2, rv2, sp2) in body.assigns():
+            fs = [p for p in pl2["proj"] if p["k"] == "field"]
+            if len(fs) == 1 and fs[0].get("name") in STACKS and fs[0].get("adt", "").endswith("program::Program") and \
+                    pl2["proj"][-1]["k"] == "field":
+                out.append((b2, fs[0]["name"], sp2))
+        return out
+
+    def gives_up_breakpoint(body, bb):
+        pd = body.postdominators()
+        for (b, e, sp) in field_stores(F, body, "breakpoint"):
+            e = strip_expr(e)
+            if e[0] == "agg" and e[2] == "None" and (b in pd.get(0, set()) or b == 0 or body.dominates(b, bb) or b in pd.get(bb, set())):
+                return True
+        # or through a local callee that does so unconditionally
+        for c in body.calls():
+            cb = F.bodies.get(c.callee)
+            if cb is None or cb.path == body.path or cb.self_adt != PROGRAM:
+                continue
+            if (c.bb in pd.get(0, set()) or c.bb == 0 or body.dominates(c.bb, bb) or c.bb in pd.get(bb, set())):
+                cpd = cb.postdominators()
+                for (b, e, sp) in field_stores(F, cb, "breakpoint"):
+                    e = strip_expr(e)
+                    if e[0] == "agg" and e[2] == "None" and (b in cpd.get(0, set()) or b == 0):
+                        return True
+        return False
+
+    def site_ok(body, bb, field, depth):
+        if gives_up_breakpoint(body, bb):
+            return None
+        from lib import controlling_switches, expr_has_field
+        for (sb, subj, names) in controlling_switches(body, bb):
+            if expr_has_field(subj, "breakpoint") and writes_only_without_breakpoint(F, E, body.path, field):
+                return None
+        if depth >= 3:
+            return "%s (call chain too deep to follow)" % body.path.split("::")[-1]
+        cs = callers_of(F, body.path.split("::", 1)[1] if body.path.startswith("abasic_core::") else body.path)
+        cs = [(cb, c) for (cb, c) in cs if c.callee == body.path]
+        if not cs:
+            return "%s, which nobody calls with the breakpoint given up" % body.path.split("::")[-1]
+        for (cb, c) in cs:
+            w = site_ok(cb, c.bb, field, depth + 1)
+            if w is not None:
+                return "%s <- %s" % (body.path.split("::")[-1], w)
+        return None
+    n = 0
+    for body in F.bodies.values():
+        if body.crate != "abasic_core" or "::tests::" in body.path:
+            continue
+        for (bb, field, sp) in direct_clears(body):
+            n += 1
+            why = site_ok(body, bb, field, 0)
+            ck.require(why is None, "C07:STACKS:%s:emptied-only-with-the-breakpoint:%s" % (field, body.path.split("::")[-1]),
+                       "the continuation survives statements typed at a breakpoint",
+                       "Program.%s is emptied in %s only where the breakpoint is given up as well, or where none is pending" % (field, body.path.split("::")[-1]),
+                       "Program.%s is emptied on a path that keeps a pending breakpoint (%s): after such a statement is typed at a "
+                       "breakpoint, CONT resumes a program whose open GOSUBs / FOR loops are gone" % (field, why), sp)
+    ck.floor("C07.sites that empty the GOSUB / FOR stacks", n, 1)
 
 
 def _on_failure_arm_of(body, call, bb):
